@@ -1,37 +1,91 @@
 (* Tie_C19.v — translator tie (T) for C19.  Compiled on every run of ./check C19 against
    GTgen.ParamsGen, the Gallina file regenerated from gencommon/params.go and method.go of the
    current tree by harness/cmd/xlate_params.  Each lemma states that a regenerated function
-   equals the hand-written model (IFaceModel.v) that C19_names (Props/C19.v) is about, so the
-   theorem holds of what the source says now.  The helper lemmas are stated over arbitrary
-   loop bodies that agree pointwise with the model's step, so that the tie does not depend on
-   how the translator happens to lay out its lets.                                          *)
+   equals, FOR ALL ARGUMENTS, the hand-written model (IFaceModel.v) that C19_names (Props/C19.v) is
+   about, so the theorem holds of what the source says now.
+
+   The tie is semantic, not an eq_refl between two terms:
+   * the translator finds the functions by role (signature shape), not by name, translates every
+     helper the code calls (Ltac unfold_gen_helpers, generated, unfolds them), and renders
+     early-continue / guard clauses / tagless switch / index loops / `for { … break }` as the
+     nested ifs, range loops and flagged while loops they abbreviate;
+   * the loop lemmas below are stated over ANY loop body that agrees pointwise with the model's step
+     (and over any arrangement of the three state components of the numbering loop), and the
+     pointwise agreements are proved by exhaustive case analysis on the booleans involved, not by
+     matching the let layout.
+   So a rename, an extracted helper, a reordered condition or another loop form leaves the tie
+   intact, while a change of the computed function (another literal, another order of effects, a
+   dropped reservation) breaks it.                                                            *)
 From Coq Require Import List Bool String NArith Arith.
 Import ListNotations.
 From GT Require Import IFaceModel IFaceGenPrims.
 From GTgen Require Import ParamsGen.
 Local Open Scope string_scope.
 
-(* the numbering loop: `for taken := true; taken; _, taken = d[result] { result = name + itoa(v); v++ }` *)
-Lemma loop_number d name (cond : string * bool * N -> bool) (body : string * bool * N -> string * bool * N) :
-  (forall r t v, cond (r, t, v) = t) ->
-  (forall r t v, body (r, t, v) = (name ++ itoa v, dmem d (name ++ itoa v), N.succ v)) ->
-  forall f v r0,
-    while_loop (S f) cond body (r0, true, v) =
-    let '(r, v') := number_name f d name v in (r, dmem d r, v').
+Ltac unfold_prims :=
+  unfold map_get, map_has, map_set, map_empty, loop_fuel, fmt_int,
+         type_implements_error, type_implements_context in *.
+
+(* ------------------------------------------------------------------ the numbering loop *)
+(* `for taken := true; taken; _, taken = d[result] { result = name + itoa(v); v++ }`, or
+   `for { result = name + itoa(v); v++; if _, taken := d[result]; !taken { break } }`: a while loop
+   whose state holds, in some arrangement [abs], the candidate, the "go on" flag and the counter *)
+Lemma loop_number_abs {St : Type} (abs : St -> string * bool * N) (unabs : string * bool * N -> St)
+      d name (cond : St -> bool) (body : St -> St) :
+  (forall s, unabs (abs s) = s) ->
+  (forall s, cond s = snd (fst (abs s))) ->
+  (forall s, abs (body s) = (name ++ itoa (snd (abs s)), dmem d (name ++ itoa (snd (abs s))), N.succ (snd (abs s)))) ->
+  forall f s0, snd (fst (abs s0)) = true ->
+    while_loop (S f) cond body s0 =
+    unabs (let '(r, v') := number_name f d name (snd (abs s0)) in (r, dmem d r, v')).
 Proof.
-  intros Hc Hb. induction f as [|f IH]; intros v r0.
-  - cbn [while_loop number_name]. rewrite Hc, Hb. reflexivity.
-  - change (while_loop (S (S f)) cond body (r0, true, v))
-      with (if cond (r0, true, v) then while_loop (S f) cond body (body (r0, true, v)) else (r0, true, v)).
-    rewrite Hc, Hb. cbn [number_name].
-    destruct (dmem d (name ++ itoa v)) eqn:E.
-    + apply IH.
-    + cbn [while_loop]. rewrite Hc, E. reflexivity.
+  intros Hu Hc Hb. induction f as [|f IH]; intros s0 H0.
+  - cbn [while_loop number_name]. rewrite Hc, H0. rewrite <- (Hu (body s0)), Hb. reflexivity.
+  - change (while_loop (S (S f)) cond body s0)
+      with (if cond s0 then while_loop (S f) cond body (body s0) else s0).
+    rewrite Hc, H0. cbn [number_name].
+    destruct (dmem d (name ++ itoa (snd (abs s0)))) eqn:E.
+    + rewrite IH; [|rewrite Hb; exact E]. rewrite Hb. reflexivity.
+    + cbn [while_loop]. rewrite Hc, Hb. cbn [fst snd]. rewrite E.
+      rewrite <- (Hu (body s0)), Hb, E. reflexivity.
 Qed.
+
+(* the six arrangements of (candidate : string, flag : bool, counter : N) *)
+Definition abs_sbn (s : string * bool * N) := s.
+Definition abs_snb (s : string * N * bool) := let '(r, v, t) := s in (r, t, v).
+Definition abs_bsn (s : bool * string * N) := let '(t, r, v) := s in (r, t, v).
+Definition abs_bns (s : bool * N * string) := let '(t, v, r) := s in (r, t, v).
+Definition abs_nsb (s : N * string * bool) := let '(v, r, t) := s in (r, t, v).
+Definition abs_nbs (s : N * bool * string) := let '(v, t, r) := s in (r, t, v).
+Definition unabs_sbn (s : string * bool * N) := s.
+Definition unabs_snb (s : string * bool * N) := let '(r, t, v) := s in (r, v, t).
+Definition unabs_bsn (s : string * bool * N) := let '(r, t, v) := s in (t, r, v).
+Definition unabs_bns (s : string * bool * N) := let '(r, t, v) := s in (t, v, r).
+Definition unabs_nsb (s : string * bool * N) := let '(r, t, v) := s in (v, r, t).
+Definition unabs_nbs (s : string * bool * N) := let '(r, t, v) := s in (v, t, r).
+
+Ltac abs_red :=
+  cbv beta iota zeta delta [abs_sbn abs_snb abs_bsn abs_bns abs_nsb abs_nbs
+                            unabs_sbn unabs_snb unabs_bsn unabs_bns unabs_nsb unabs_nbs fst snd].
+
+Ltac loop_side :=
+  intros;
+  repeat match goal with s : (_ * _)%type |- _ => destruct s end;
+  abs_red; try reflexivity;
+  repeat (match goal with |- context [dmem ?d ?k] => destruct (dmem d k) end; abs_red; cbn [negb]);
+  reflexivity.
+
+Ltac number_loop d name :=
+  first [ rewrite (loop_number_abs abs_sbn unabs_sbn d name) by loop_side
+        | rewrite (loop_number_abs abs_snb unabs_snb d name) by loop_side
+        | rewrite (loop_number_abs abs_bsn unabs_bsn d name) by loop_side
+        | rewrite (loop_number_abs abs_bns unabs_bns d name) by loop_side
+        | rewrite (loop_number_abs abs_nsb unabs_nsb d name) by loop_side
+        | rewrite (loop_number_abs abs_nbs unabs_nbs d name) by loop_side ].
 
 Lemma tie_reserveParamName : forall d n, gen_reserveParamName d n = (n, reserve d n).
 Proof.
-  intros d n. unfold gen_reserveParamName, reserve, map_has, map_set. cbv zeta.
+  intros d n. unfold gen_reserveParamName, reserve. unfold_gen_helpers. unfold_prims. cbv zeta.
   destruct (dmem d n); reflexivity.
 Qed.
 
@@ -39,15 +93,17 @@ Lemma tie_getSafeParamName : forall d name always,
   gen_getSafeParamName d name always = get_safe_param_name d name always.
 Proof.
   intros d name always.
-  unfold gen_getSafeParamName, get_safe_param_name, map_get, map_has, map_set, loop_fuel, fmt_int.
-  cbv zeta. destruct (dmem d name || always).
-  - rewrite (loop_number d name); [|intros; reflexivity|intros; reflexivity].
-    destruct (number_name (S (List.length d)) d name
-                match dget d name with Some v => v | None => 0%N end) as [r v']. reflexivity.
-  - reflexivity.
+  unfold gen_getSafeParamName, get_safe_param_name. unfold_gen_helpers. unfold_prims. cbv zeta.
+  destruct (dmem d name) eqn:Ed; destruct always; cbn [orb andb negb];
+    first [ reflexivity
+          | number_loop d name; abs_red;
+            destruct (number_name (S (List.length d)) d name
+                        match dget d name with Some v => v | None => 0%N end) as [r v'];
+            reflexivity ].
 Qed.
 
-(* `for _, p := range ps` of keepNames *)
+(* ------------------------------------------------------------------ the range loops *)
+(* `for _, p := range ps` of keepNames, whatever its body looks like *)
 Lemma range_keep (F : dmap -> nat -> pinfo -> pinfo * dmap) :
   (forall d i p, F d i p =
      if unnamed (pi_name p) then (p, d)
@@ -60,19 +116,27 @@ Proof.
   - destruct (get_safe_param_name d (pi_name p) false) as [n d1]. rewrite IH. reflexivity.
 Qed.
 
+Ltac split_name p :=
+  destruct (String.eqb (pi_name p) "") eqn:?; destruct (String.eqb (pi_name p) "_") eqn:?;
+  cbn [negb andb orb].
+
+Ltac finish_step d0 :=
+  try reflexivity;
+  match goal with
+  | |- context [get_safe_param_name d0 ?b ?a] =>
+      destruct (get_safe_param_name d0 b a) as [n d1]; cbv beta iota;
+      rewrite ?tie_reserveParamName; reflexivity
+  end.
+
 Lemma tie_keepNames : forall ps d, gen_keepNames ps d = keep_names d ps.
 Proof.
   intros ps d. unfold gen_keepNames, range_upd. rewrite range_keep.
   - destruct (keep_names d ps). reflexivity.
-  - intros d0 i p. cbv beta zeta. unfold unnamed.
-    rewrite tie_getSafeParamName.
-    destruct (String.eqb (pi_name p) ""); destruct (String.eqb (pi_name p) "_"); cbn [negb andb orb];
-      try reflexivity.
-    destruct (get_safe_param_name d0 (pi_name p) false) as [n d1].
-    rewrite tie_reserveParamName. reflexivity.
+  - intros d0 i p. cbv beta zeta. unfold_gen_helpers. unfold unnamed. cbv zeta.
+    rewrite ?tie_getSafeParamName. split_name p; finish_step d0.
 Qed.
 
-(* `for i, p := range ps` of ensureNames *)
+(* `for i, p := range ps` / `for i := 0; i < len(ps); i++` of ensureNames *)
 Lemma range_ensure o len (F : dmap -> nat -> pinfo -> pinfo * dmap) :
   (forall d i p, F d i p =
      if unnamed (pi_name p)
@@ -90,26 +154,21 @@ Qed.
 
 Lemma tie_ensureNames : forall ps d o, gen_ensureNames ps d o = ensure_names d o ps.
 Proof.
-  intros ps d o. unfold gen_ensureNames, ensure_names, range_upd. cbv zeta.
+  intros ps d o. unfold gen_ensureNames, ensure_names, range_upd. unfold_gen_helpers. cbv zeta.
   rewrite (range_ensure o (List.length ps)).
   - destruct (ensure_names_from d o (List.length ps) 0 ps). reflexivity.
-  - intros d0 i p. cbv beta zeta. unfold unnamed, gen_choice, type_implements_error, type_implements_context.
-    destruct (String.eqb (pi_name p) "" || String.eqb (pi_name p) "_"); [|reflexivity].
-    destruct (o && Nat.eqb (List.length ps - 1) i && pi_err p).
-    + rewrite tie_getSafeParamName. destruct (get_safe_param_name d0 "err" false) as [n d1].
-      rewrite tie_reserveParamName. reflexivity.
-    + destruct (negb o && Nat.eqb i 0 && pi_ctx p).
-      * rewrite tie_getSafeParamName. destruct (get_safe_param_name d0 "ctx" false) as [n d1].
-        rewrite tie_reserveParamName. reflexivity.
-      * rewrite tie_getSafeParamName. destruct o.
-        -- destruct (get_safe_param_name d0 "ret" true) as [n d1]. rewrite tie_reserveParamName. reflexivity.
-        -- destruct (get_safe_param_name d0 "arg" true) as [n d1]. rewrite tie_reserveParamName. reflexivity.
+  - intros d0 i p. cbv beta zeta. unfold_gen_helpers. unfold unnamed, gen_choice. unfold_prims. cbv zeta.
+    rewrite ?tie_getSafeParamName.
+    split_name p; try reflexivity;
+      destruct o; destruct (Nat.eqb (List.length ps - 1) i); destruct (pi_err p);
+      destruct (Nat.eqb i 0); destruct (pi_ctx p); cbn [negb andb orb]; finish_step d0.
 Qed.
 
 Lemma tie_ensureParamNames : forall ins outs,
   gen_ensureParamNames ins outs = ensure_param_names ins outs.
 Proof.
-  intros ins outs. unfold gen_ensureParamNames, ensure_param_names, map_empty.
+  intros ins outs. unfold gen_ensureParamNames, ensure_param_names. unfold_gen_helpers. unfold map_empty.
+  cbv zeta.
   rewrite tie_keepNames. destruct (keep_names [] ins) as [ins1 d1].
   rewrite tie_keepNames. destruct (keep_names d1 outs) as [outs1 d2].
   rewrite tie_ensureNames. destruct (ensure_names d2 false ins1) as [ins2 d3].
@@ -121,4 +180,70 @@ Theorem tie_final_names : forall ins outs,
   (let '(i, o) := gen_ensureParamNames ins outs in map pi_name (i ++ o)) = final_names ins outs.
 Proof. intros ins outs. rewrite tie_ensureParamNames. reflexivity. Qed.
 
+(* ------------------------------------------------------------------ ImportString (imports.go) *)
+Lemma app_assoc_s : forall a b c : string, ((a ++ b) ++ c)%string = (a ++ (b ++ c))%string.
+Proof. induction a as [|x a IH]; intros b c; simpl; [reflexivity|]. rewrite IH. reflexivity. Qed.
+
+(* whatever way the line is put together: same text *)
+Lemma tie_ImportString : forall i, gen_ImportString i = import_string i.
+Proof.
+  intros i. unfold gen_ImportString, import_string. unfold_gen_helpers. cbv zeta.
+  destruct (i_alias_is_pkg i); cbn [negb]; repeat rewrite app_assoc_s; cbn [append]; reflexivity.
+Qed.
+
+(* ------------------------------------------------------------------ the merge loop (interface.go) *)
+(* Go's map[string]*Method against the model's first-seen list of candidates *)
+Definition keyed {A : Type} (name : A -> string) (l : list A) : list (string * A) :=
+  map (fun x => (name x, x)) l.
+
+Lemma mmap_has_keyed {A} (name : A -> string) l k :
+  mmap_has (keyed name l) k = existsb (fun x => String.eqb (name x) k) l.
+Proof. unfold mmap_has, keyed. induction l as [|x r IH]; simpl; [reflexivity|]. rewrite IH. reflexivity. Qed.
+
+Lemma mmap_del_keyed {A} (name : A -> string) l k :
+  mmap_del (keyed name l) k = keyed name (filter (fun x => negb (String.eqb (name x) k)) l).
+Proof.
+  unfold mmap_del, keyed. induction l as [|x r IH]; simpl; [reflexivity|].
+  destruct (String.eqb (name x) k); simpl; rewrite IH; reflexivity.
+Qed.
+
+Lemma mmap_set_keyed_new {A} (name : A -> string) l (m : A) :
+  existsb (fun x => String.eqb (name x) (name m)) l = false ->
+  mmap_set (keyed name l) (name m) m = keyed name (l ++ [m]).
+Proof.
+  intros H. unfold mmap_set. rewrite mmap_has_keyed, H. unfold keyed. rewrite map_app. reflexivity.
+Qed.
+
+(* one step of the loop over an embedded field's methods = merge_one, for every state *)
+Lemma tie_merge_step : forall (A : Type) (name : A -> string) toadd ign (m : A),
+  gen_merge_step name (keyed name toadd) ign m =
+  (keyed name (fst (merge_one name (toadd, ign) m)), snd (merge_one name (toadd, ign) m)).
+Proof.
+  intros A name toadd ign m. unfold gen_merge_step, merge_one, mset_has, mset_add. unfold_gen_helpers.
+  cbv zeta. rewrite ?mmap_has_keyed.
+  destruct (mem (name m) ign) eqn:Ei;
+    destruct (existsb (fun x => String.eqb (name x) (name m)) toadd) eqn:Et;
+    cbn [fst snd negb andb orb];
+    rewrite ?mmap_del_keyed, ?(mmap_set_keyed_new name toadd m Et); reflexivity.
+Qed.
+
+(* hence the whole loop = merge, the function C19_embedded is proved about *)
+Theorem tie_merge : forall (A : Type) (name : A -> string) (ms : list A) toadd ign,
+  fold_left (fun st m => gen_merge_step name (fst st) (snd st) m) ms (keyed name toadd, ign) =
+  (keyed name (fst (merge name (toadd, ign) ms)), snd (merge name (toadd, ign) ms)).
+Proof.
+  intros A name. unfold merge. induction ms as [|m r IH]; intros toadd ign; cbn [fold_left]; [reflexivity|].
+  cbn [fst snd]. rewrite tie_merge_step. destruct (merge_one name (toadd, ign) m) as [ta ig]. apply IH.
+Qed.
+
+(* the condition under which a declared method is listed = visible *)
+Lemma tie_visible : forall priv m, is_meth m = true ->
+  gen_visible priv (exported (m_name m)) = visible priv m.
+Proof.
+  intros priv m H. unfold gen_visible, visible. rewrite H. destruct priv; destruct (exported (m_name m)); reflexivity.
+Qed.
+
 Print Assumptions tie_final_names.
+Print Assumptions tie_ImportString.
+Print Assumptions tie_merge.
+Print Assumptions tie_visible.
